@@ -308,3 +308,56 @@ func VerifH11c() {
 	nd.Assert(nd.Implies(nd.And(g >= 0, g <= 3), isoLevel.ConvertToGrpc(m) == g), "H11c.wire-roundtrip")
 	nd.Reach("H11c.end")
 }
+
+var errMedia = errors.New("input/output error")
+
+// VerifH11d: a fault in the middle of a download. The content file on the server (and, in lock
+// step, the one of the inline client) fails to read from a chosen offset on: whatever the inline
+// client reports for Get and GetReader+ReadAll, the gRPC client reports the same class - an error
+// that arrives after the header and some chunks is not swallowed.
+func VerifH11d() {
+	nd.SetPreemptionBound(0)
+	concreteCounter = true
+	p := &pair{keys: []string{"a"}}
+	cfg := stdConfig()
+	verifenv.Switch(0)
+	p.in, _ = openSeq(cfg)
+	verifenv.Switch(1)
+	p.ex, _, _ = openExternal(cfg)
+	n := []int{1, 2049, 4097}[nd.Choice("len", 3)]
+	val := nd.Bytes("val", n)
+	a, b := both(func(side int) error { return p.store(side, -1).Set(ctx, "a", val) })
+	nd.Assert(a == nil && b == nil, "H11d.set")
+	// the read at or beyond this offset fails (n itself: the read that would report the end)
+	offs := []int{0, 1, 2048, 4096, n}
+	failAt := offs[nd.Choice("read-fails-from-offset", len(offs))]
+	if failAt > n {
+		nd.Assume(false)
+	}
+	hook := func(path string, pos int) error {
+		if pos >= failAt {
+			return errMedia
+		}
+		return nil
+	}
+	both(func(side int) int { verifenv.FS.OnRead = hook; return 0 })
+	ga, gb := both(func(side int) getRes {
+		v, err := p.store(side, -1).Get(ctx, "a")
+		return getRes{v, err}
+	})
+	nd.Assert(ga.err != nil, "H11d.inline-reports-the-read-error")
+	sameClass(ga.err, gb.err, "H11d.Get")
+	ra, rb := both(func(side int) getRes {
+		r, err := p.store(side, -1).GetReader(ctx, "a")
+		if err != nil {
+			return getRes{nil, err}
+		}
+		v, rerr := readAll(r)
+		return getRes{v, rerr}
+	})
+	nd.Assert(ra.err != nil, "H11d.inline-reader-reports-the-read-error")
+	sameClass(ra.err, rb.err, "H11d.GetReader")
+	both(func(side int) int { verifenv.FS.OnRead = nil; return 0 })
+	p.compareReads("H11d.after")
+	nd.Reach("H11d.end")
+}
